@@ -167,7 +167,7 @@ theorem RInv.restart {c : RCfg} {s : RSt} (h : RInv s) : RInv (restart c s) := b
   simp only []
   obtain ⟨a1, a2, a3, _, a5, a6, a7, a8⟩ := reenqueue_facts c s.sDi
     { ri := s.ri, wi := s.wi, disp := [], size := restoreSize c s.ri s.wi s.sSi, stopped := false, infl := [],
-      sRi := s.sRi, sWi := s.sWi, sDi := s.sDi, sSi := s.sSi, store := s.store, next := s.next }
+      sRi := s.sRi, sWi := s.sWi, sDi := s.sDi, sSi := s.sSi, store := s.store, next := s.next, siFails := s.siFails }
   simp only [] at a1 a2 a3 a5 a6 a7 a8
   refine ⟨?_, ?_, ?_, ?_, ?_⟩
   · have := restoreSize_nonneg c s.ri s.wi s.sSi; omega
@@ -210,10 +210,10 @@ theorem restart_req_exact {c : RCfg} (hc : c.reqSized = true) {s : RSt} (h : RIn
   simp only [] at hle ⊢
   have e := reenqueue_req c hc s.sDi
     { ri := s.ri, wi := s.wi, disp := [], size := restoreSize c s.ri s.wi s.sSi, stopped := false, infl := [],
-      sRi := s.sRi, sWi := s.sWi, sDi := s.sDi, sSi := s.sSi, store := s.store, next := s.next }
+      sRi := s.sRi, sWi := s.sWi, sDi := s.sDi, sSi := s.sSi, store := s.store, next := s.next, siFails := s.siFails }
   obtain ⟨a1, _⟩ := reenqueue_facts c s.sDi
     { ri := s.ri, wi := s.wi, disp := [], size := restoreSize c s.ri s.wi s.sSi, stopped := false, infl := [],
-      sRi := s.sRi, sWi := s.sWi, sDi := s.sDi, sSi := s.sSi, store := s.store, next := s.next }
+      sRi := s.sRi, sWi := s.sWi, sDi := s.sDi, sSi := s.sSi, store := s.store, next := s.next, siFails := s.siFails }
   simp only [] at e a1
   have hq : restoreSize c s.ri s.wi s.sSi = ((s.wi - s.ri : Nat) : Int) := by simp [restoreSize, hc]
   rw [a1] at hle ⊢
@@ -229,7 +229,7 @@ theorem restart_empty_zero {c : RCfg} {s : RSt} (h : RInv s) (he : (restart c s)
   simp only [] at he ⊢
   obtain ⟨a1, a2, _, a4, _⟩ := reenqueue_facts c s.sDi
     { ri := s.ri, wi := s.wi, disp := [], size := restoreSize c s.ri s.wi s.sSi, stopped := false, infl := [],
-      sRi := s.sRi, sWi := s.sWi, sDi := s.sDi, sSi := s.sSi, store := s.store, next := s.next }
+      sRi := s.sRi, sWi := s.sWi, sDi := s.sDi, sSi := s.sSi, store := s.store, next := s.next, siFails := s.siFails }
   simp only [] at a1 a2 a4
   have hle := h.le
   have hw : s.wi = s.ri := by omega
